@@ -140,6 +140,12 @@ def first_cause_oracle(ix: Index) -> list[Violation]:
         T = ix.closed_seq.get(c)
         if T is not None and (ix.seq_turn[T], T) < k1:
             continue  # closed before the first delivered fault (e.g. a library timeout)
+        fat = ix.fatal.get(c, [])
+        if T is not None and ix.disc_calls.get(c) and any(sq < T for sq, _f, _s in ix.disc_calls[c]) and (not fat or T < fat[0][0]):
+            # a graceful disconnect() that had been waiting reached its own end (answer or 10 s limit) and closed the
+            # connection before the socket's failure was reported to the library, in the same instant: waiters legitimately
+            # see the local close
+            continue
         cancelled_ops = {(a, i) for _s, a, i in ix.cancels}
         for op in ix.ops:
             if op.conn != c or op.s1 is None or op.ok or op.cancelled or (op.actor, op.i) in cancelled_ops:
@@ -309,6 +315,23 @@ def gen_raiser_case(rng: random.Random) -> dict:
     return {"family": "session", "kind": "raiser", "knobs": gen_knobs(rng), "client": client, "device": device, "net": {"cuts": {"mode": "coalesce"}, "c2d_latency": 0.001, "d2c_latency": [0.001]}, "actors": actors, "events": events, "end": 200.0}
 
 
+def gen_late_stall_case(rng: random.Random) -> dict:
+    """A connect attempt made long after the loop started, against a peer that accepts TCP and then stalls in the handshake
+    or the hello: the phase bounds are durations, whatever the clock reads when they start."""
+    import base64
+
+    client: dict = {"addresses": ["10.0.0.5"], "keepalive": 20.0}
+    device: dict = {}
+    if rng.random() < 0.7:
+        psk = base64.b64encode(bytes(rng.getrandbits(8) for _ in range(32))).decode()
+        client["noise_psk"] = psk
+        device.update({"transport": "noise", "psk": psk, "eph_seed": "%x" % rng.getrandbits(32), "silent_noise": pick(rng, ["hello", "handshake"])})
+    else:
+        device["replies"] = {"HelloRequest": ["silent"]}
+    steps = [{"do": "sleep", "d": pick(rng, [40.0, 100.0, 1000.0, 86400.0])}, {"do": "connect", "login": rng.random() < 0.5}]
+    return {"family": "session", "kind": "late-stall", "knobs": gen_knobs(rng), "client": client, "device": device, "net": {"cuts": {"mode": "coalesce"}, "c2d_latency": 0.001, "d2c_latency": [0.001]}, "actors": [{"id": "a0", "at": {"t": 0.0}, "steps": steps}], "events": [], "end": 90000.0, "max_time": 200000.0}
+
+
 class C09(CheckBase):
     pid = "C09"
     level = "fault_enumeration"
@@ -361,7 +384,7 @@ class C09(CheckBase):
                 yield with_cause(a, c2, {"turn": n + pick(rng, [1, 2, 3, 5])}, "pre", rng)
         else:
             for k in range(30 if tier == "quick" else 60):
-                yield gen_burst_case(rng) if k % 6 == 5 else (gen_raiser_case(rng) if k % 6 == 4 else gen_connect_fault_case(rng))
+                yield gen_burst_case(rng) if k % 6 == 5 else (gen_raiser_case(rng) if k % 6 == 4 else (gen_late_stall_case(rng) if k % 12 == 3 else gen_connect_fault_case(rng)))
 
     def oracle(self, run: Any, scn: dict) -> list[Violation]:
         ix = Index(run.history)
